@@ -39,7 +39,9 @@ theorem hansen_recursion_linear (c : HansenLaw.Coef K) (Kn cols : ℕ) (a b : K)
     rw [← sumRange_smul, ← sumRange_smul, ← sumRange_add]
     exact sumRange_congr _ _ _ fun k _ => hansen_state_linear c cols a b d1 d2 _ k
   unfold HansenLaw.recursion
-  split_ifs <;> exact raw _
+  split_ifs
+  · simp
+  all_goals exact raw _
 
 section
 variable [HasPi K]
